@@ -157,6 +157,7 @@ impl InputTextPlugin for IgnoreYomiganaPlugin {
 
         let data = input.current();
         for m in regex.captures_iter(data) {
+            verif_point!("ignore_yomigana:match");
             let grp = m.get(1).unwrap(); //must be here
             edit.replace_ref(grp.range(), "");
         }
